@@ -11,7 +11,10 @@ Gates
      g1W, g0W, m1W, m0W) satisfies its own score equations to 1e-7*n.  If not: discard (non-convergence).
   K  (nuisance layer) zEpid's fluctuation coefficients = the reference coefficients; (model layer) the Lean model run by
      the driver at Float on (A, Delta, Y, Q, g, m, eps) reproduces the probe's Qstar/Qstar1/Qstar0, g totals, the reported
-     estimates, influence-curve SEs and CIs (z as the code chooses it: 1.96 iff alpha == 0.05, that is C06's finding F12).
+     estimates, influence-curve SEs and CIs (z as the code chooses it: 1.96 iff alpha == 0.05, that is C06's finding F12);
+     (nuisance layer, outcome model) QA1W / QA0W / QAW = the model's truncation (`Tmle.truncate`: [b, 1-b] of a float,
+     entries 0 and 1 of a collection of any kind and length, [cb, 1-cb] by default; offset from the truncated pair)
+     applied to the predictions of a reference outcome GLM fitted by the harness with the documented arguments.
   D  on the real arrays: both efficient-score sums (with Q*A and with Q*1/Q*0; g recomputed independently) <= 1e-7*n;
      Q*A is the arm's counterfactual prediction; reported RD/RR/OR/ATE = plug-ins of the probe arrays; all Q* in [0,1];
      back-transformed values within the observed outcome range; estimates inside the parameter space; unit-interval
@@ -31,7 +34,8 @@ REQUIRED = ['qstar_consistent', 'score_rowwise', 'score_identity', 'score_equati
             'range_binary', 'range_binary_closed', 'unbound_range', 'range_continuous', 'range_crossfit',
             'unit_bounds_range', 'unit_roundtrip', 'unit_roundtrip_clip', 'expit_real_range',
             'expit_real_strictMono', 'expit_logit_real', 'range_binary_real', 'score_equations_real', 'tmle_fit_generated_binary', 'tmle_fit_generated_continuous', 'tmle_fit_generated_useMiss',
-            'xfit_targeting_generated']
+            'xfit_targeting_generated', 'init_clip_range', 'init_offset', 'truncate_collection', 'truncate_range',
+            'null_fluctuation_real', 'observers_noop', 'report_after_observers', 'plugin_after_observers']
 RULE = ('TMLE.fit: (1) every cell of outcome {binary, continuous} x outcome missingness {none, missing without model, '
         'missing with missing_model} x g truncation {none, symmetric, asymmetric} x covariates {categorical only, '
         'categorical + continuous}, with alpha, continuous_bound, outcome-model bound, missing-model bound, GLM family '
@@ -44,7 +48,17 @@ RULE = ('TMLE.fit: (1) every cell of outcome {binary, continuous} x outcome miss
         'caller frame with interleaved calls -- the state after the LAST fit is judged by the property predicates and '
         'against a fresh object given the last specification; (3) the custom_model path of each nuisance model alone '
         'and together; (4) extreme but valid data: near-positivity violations without g truncation (g down to 1e-7, '
-        'eps/g beyond the overflow threshold of exp), outcome risks of a few per cent. All predicates use the A and Y '
+        'eps/g beyond the overflow threshold of exp), outcome risks of a few per cent; (5) rows the estimator must '
+        'discard; (6) every reporting / diagnostic method (summary with 1/3/5 decimals, run_diagnostics, positivity, '
+        'standardized_mean_differences, plot_kde exposure / outcome, plot_love) called between two model '
+        'specifications, between the last specification and fit(), and between fit() and reading the results -- one '
+        'cell per method x position x outcome type, inside every kind of history, and at random off the plain path; '
+        'whether such a call succeeds is not judged, the estimator afterwards is (property predicates + fresh object, '
+        'including the nuisance predictions a caller can read back); (7) how a truncation bound is handed over: float, '
+        'list, tuple, a collection with a third entry, limits of exactly 0 or 1 (g and missing model), symmetric and '
+        'asymmetric bounds on the initial outcome predictions, for each nuisance model alone and for all three; '
+        'right-skewed continuous outcomes, for which the Gaussian outcome model predicts outside the unit interval so '
+        'that the truncation of the initial predictions is what keeps their logit defined. All predicates use the A and Y '
         'of the frame the caller passed in (snapshot taken before the estimator sees it). Data sets are simulated '
         '(logistic treatment / outcome / missingness mechanisms with random coefficients). '
         'Cross-fit: direct calls of targeting_step / tmle_calculator on generated nuisance predictions with 2-4 '
@@ -384,6 +398,34 @@ def reference_fluctuation(y, a, qa, g1, g0):
     return np.asarray(ref.params, dtype=float), (s1, s0), int(obs.sum())
 
 
+def reference_outcome(snap, y, cfg):
+    """the outcome model as documented, fitted by the harness itself: GLM of the outcome (unit scale for continuous
+    outcomes) on the formula over the analysed rows with an observed outcome, family by outcome type / the requested
+    distribution; returns its predictions for every analysed row with the exposure set to 1 and to 0 (before any
+    truncation), or None when the reference call fails"""
+    import statsmodels.api as sm
+    import statsmodels.formula.api as smf
+    if cfg['outcome'] == 'binary':
+        fam = sm.families.family.Binomial()
+    else:
+        fam = sm.families.family.Poisson() if cfg['dist'] == 'poisson' else sm.families.family.Gaussian()
+    ref = snap.copy()
+    ref['A'] = np.asarray(ref['A'], dtype=float)
+    ref['Y'] = y
+    try:
+        import common
+        with common.quiet():
+            fit = smf.glm('Y ~ ' + formulas(cfg)[2], ref[ref['Y'].notna()], family=fam).fit()
+            out = []
+            for level in (1, 0):
+                d = ref.copy()
+                d['A'] = level
+                out.append(np.asarray(fit.predict(d), dtype=float))
+    except Exception:                                   # noqa: BLE001  (reference call failed: not compared)
+        return None
+    return out if all(np.all(np.isfinite(v)) for v in out) else None
+
+
 def fl_list(v):
     return enc_list(np.asarray(v, dtype=float).tolist(), fx)
 
@@ -701,6 +743,26 @@ def evaluate_tmle(chk, drv, t, snap, cfg, case):
             bad = [key for key, v in pairs if not close(unfx(rep['g' + key]), float(v), rtol=RT, atol=1e-12)]
             chk.k(not bad, 'TMLE.fit = definition generated from its source (%s)' % cfg['outcome'],
                   {'case': case, 'mismatch': bad})
+        # ---- K (nuisance layer, outcome model): what fit() finds in QA1W / QA0W / QAW is the documented outcome
+        # model's prediction (reference invocation by the harness) truncated as the model of `outcome_model` says --
+        # interval = the float's [b, 1-b], entries 0 and 1 of a collection of any kind and length, [cb, 1-cb] when no
+        # bound was requested -- and the offset is formed from the truncated pair.  1e-8: two IRLS runs on the same data
+        if 'q' not in (cfg.get('custom') or ''):
+            refq = reference_outcome(snap, y, cfg)
+            if refq is None:
+                chk.count('reference outcome model not available')
+            else:
+                qbv = cfg.get('qbound') if cont else None
+                if isinstance(qbv, list):
+                    spec = dict(spec='coll', items=fl_list(bound_arg(qbv, cfg.get('qbk'))))
+                else:
+                    spec = dict(spec='sym', b=fx(float(qbv) if qbv is not None else float(cb)))
+                rep, _ = drv.ask('qinit', a=enc_list(a.astype(int).tolist(), str), q1=fl_list(refq[0]),
+                                 q0=fl_list(refq[1]), **spec)
+                bad = [k for k, v in (('q1', q1), ('q0', q0), ('qa', np.asarray(t.QAW, dtype=float)))
+                       if rep['status'] != 'ok' or not allclose(dec_list(rep[k], unfx), v, rtol=1e-8, atol=1e-10)]
+                chk.k(not bad, 'QA1W / QA0W / QAW = model of outcome_model\'s truncation applied to the reference '
+                      'outcome model\'s predictions', {'case': case, 'mismatch': bad, 'status': rep.get('status')})
         if cont:
             rep, _ = drv.ask('unit', y=fl_list(np.where(np.isnan(y_in), 0.0, y_in)), mini=fx(lo), maxi=fx(hi),
                              cb=fx(cfg['cb']))
